@@ -43,3 +43,11 @@ Theorem C13_shuffle_once_constant : forall perm n m arrs st,
   epochs (XShuffleOnce perm (XSrc n)) arrs st m = Some (repeat (map (fun i => nth i (seq 0 n) 0) perm) m, st).
 Proof. exact shuffle_once_src_epochs. Qed.
 Print Assumptions C13_shuffle_once_constant.
+
+(* lazy apply of a per-epoch reshuffle: every epoch is exactly the permutation drawn from ITS generator ... *)
+Theorem C13_lazy_apply_epoch_is_draw : forall g n sigma st st1 arrs k,
+  take_draw st g = Some (DShuffle sigma, st1) -> length sigma = n ->
+  epoch (XApply g (XSrc n)) arrs k st = Some (map (fun i => nth i (seq 0 n) 0) sigma, arrs, k, st1).
+Proof. exact apply_epoch_is_draw. Qed.
+Print Assumptions C13_lazy_apply_epoch_is_draw.
+(* ... and its copy(freeze=True) is a one-time shuffle: one fixed order forever (C13_shuffle_once_constant) *)
